@@ -26,6 +26,14 @@ class Abort(Exception):
     """end this run (phase finished / path infeasible)"""
 
 
+class ContinueEx(Exception):
+    pass
+
+
+class BreakEx(Exception):
+    pass
+
+
 class ReturnEx(Exception):
     def __init__(self, value): self.value = value
 
